@@ -425,10 +425,11 @@ func RunScan(behs [][]Step, tr *Trace, env Env, sum *Summary) {
 		case cell["tree"] != nil:
 			kind = "expr"
 			pr := exprPrinter{full: rng.Intn(4) == 0, tight: rng.Intn(3) == 0}
+			pr.brk = !pr.full && !pr.tight && rng.Intn(2) == 0
 			tree := nodeOf(cell["tree"])
 			pr.root = tree
 			base = pr.expr(tree)
-			if rng.Intn(2) == 0 {
+			if pr.brk || rng.Intn(2) == 0 { // as the value of an argument: line ends are significant around it
 				base = "v = " + base + "\n"
 			}
 		case cell["e"] != nil:
@@ -445,6 +446,9 @@ func RunScan(behs [][]Step, tr *Trace, env Env, sum *Summary) {
 			texts = append(texts, tokenMutants(base, rng, nmut, env.Mode == "thorough" && kind == "expr")...)
 			if rng.Intn(4) == 0 {
 				texts = append(texts, "\xef\xbb\xbf"+base)
+			}
+			if strings.Contains(base, "\n") && (rng.Intn(3) == 0 || strings.Contains(base, "<<")) {
+				texts = append(texts, strings.ReplaceAll(base, "\n", "\r\n")) // the same text with CRLF line ends
 			}
 		}
 		for ti, text := range texts {
